@@ -216,7 +216,9 @@ class CallTracer:
         self.logger = logger
         self.traces: Dict[FrameType, CallTrace] = {}
         self.sample_rate = sample_rate
-        self.cache: Dict[Tuple[str, CodeType], Optional[Callable[..., Any]]] = {}
+        self.cache: Dict[
+            Tuple[str, Optional[str], CodeType], Optional[Callable[..., Any]]
+        ] = {}
         self.should_trace = code_filter
         self.max_typed_dict_size = max_typed_dict_size
 
@@ -225,7 +227,9 @@ class CallTracer:
         # Code objects compare (and hash) equal whenever their contents are
         # identical, whatever file they come from: key on the file name as well,
         # or a copy of a function in another file is attributed to the first one.
-        key = (code.co_filename, code)
+        # One file can also be loaded twice (run as __main__ and imported under
+        # its own name): key on the module the frame runs in, too.
+        key = (code.co_filename, frame.f_globals.get("__name__"), code)
         if key not in self.cache:
             self.cache[key] = get_func(frame)
         return self.cache[key]
